@@ -5,6 +5,7 @@
 //! and against the unpatched crate (`native`, concrete replay of solver models on the real build).
 mod addr;
 mod cfgops;
+mod hist;
 mod pb;
 mod probe;
 mod scen;
